@@ -1,6 +1,6 @@
 (* C11 - A locked tree reader is never invalidated, and deferral keeps commit order. *)
 From Coq Require Import NArith List Bool.
-From PDB Require Import Model.MultiTree Proofs.MultiTreeProofs.
+From PDB Require Import Model.MultiTree Proofs.MultiTreeProofs Proofs.MultiTreeDrain.
 Import ListNotations.
 Open Scope N_scope.
 
@@ -20,5 +20,23 @@ Proof. exact locked_tree_stable. Qed.
 Theorem C11_order_preserved_refuted : get_kv f4_history 5 = Some 111 /\ mqueue f4_history = [].
 Proof. exact order_preserved_refuted. Qed.
 
+(* "once the lock is released the postponed removal completes": with no reader lock held, n*n calls of
+   process_commits empty a queue of n commits, whatever the commits dereference and use. (A commit is
+   deferred only for commits made after it; the one made last is never deferred, and every rotation
+   brings the first commit that is not deferred one place nearer to the head.) *)
+Theorem C11_postponed_removals_complete : forall cf s,
+  locked s = [] -> mqueue (mprocess_all cf (length (mqueue s) * length (mqueue s)) s) = [].
+Proof. exact postponed_removals_complete. Qed.
+
+(* Before repair F24 a commit waited for every queued user of its tree, made earlier or later: the three
+   commits of f24_queue (each dereferences a tree another one uses) then rotate for ever - after every
+   third call of process_commits the queue is what it was. Under the repaired rule it is empty after 6. *)
+Theorem C11_old_deferral_rule_rotates_for_ever : forall n, qiter_old (3 * n) f24_queue = f24_queue.
+Proof. exact old_rule_rotates_for_ever. Qed.
+Example C11_same_queue_drains_now : qiter 6 f24_queue = [].
+Proof. exact f24_queue_drains. Qed.
+
 Print Assumptions C11_locked_tree_stable.
+Print Assumptions C11_postponed_removals_complete.
+Print Assumptions C11_old_deferral_rule_rotates_for_ever.
 Print Assumptions C11_order_preserved_refuted.
